@@ -884,6 +884,11 @@ class InlineWalker(Walker):
         nested = self.root is not None and nm.startswith(self.root + "::")
         if (private or nested) and not b.get("impl_trait"):
             return b
+        # a helper that was made `pub` is still a helper: a free function of the module of the function under analysis
+        if b["kind"] == "Fn" and not b.get("impl_trait") and getattr(self, "same_module_helpers", True):
+            rf = getattr(self, "root_file", None) or span_file(self.body.b.get("span") if hasattr(self.body, "b") else None)
+            if rf and span_file(b.get("span")) == rf:
+                return b
         return None
 
     def call_hook(self, st, t, fname, resolved, args):
@@ -930,6 +935,7 @@ class InlineWalker(Walker):
     def inline_call(self, st, callee, args):
         w = InlineWalker(callee, self.facts, self.pred, depth=self.depth + 1, max_paths=self.max_paths, unroll=self.unroll)
         w.root = self.root
+        w.root_file = getattr(self, "root_file", None) or span_file(self.body.b.get("span") if hasattr(self.body, "b") else None)
         w.adapters = getattr(self, "adapters", True)
         w.gen_map = generic_map(self, callee)
         s2 = self.fork(st)
@@ -964,6 +970,11 @@ class InlineWalker(Walker):
             else:
                 self.paths.append(p)
         return forks
+
+
+def span_file(span):
+    """source file of a span string (`src/impls/x.rs:10:5: 12:6 (#0)`)"""
+    return str(span).split(":")[0] if span else None
 
 
 def generic_map(caller, callee):
